@@ -15,6 +15,9 @@ from mc.lib import events, records
 
 ID = 'C09'
 LEVEL = 'exploration'
+# fewer non-trivial cases than this share of all cases means that the
+# exploration has become vacuous (reported as INTERNAL-ERROR, never as a pass)
+MIN_NONTRIVIAL_FRACTION = 0.5
 RULE = (
     'Finite lattice (grid step, k): for each grid step in {1, 0.5, 0.1, '
     '0.2, 0.3, 2.5, 5} mm and two classified datasets scaled so that the '
